@@ -685,7 +685,10 @@ def in_domain(call, root, scope, depth, allow_misaligned=True):
         eff = call[2] or spec.inherited_encoding(scope, depth)
         if not encodable(call[1], eff):
             return False
-        if not allow_misaligned and misaligned(call[1], eff):
+        # byte-level and text-level line splitting only differ where lines
+        # are split at all: when the text is indented
+        if not allow_misaligned and call[3] != 0 and \
+                misaligned(call[1], eff):
             return False
     elif kind == 'meta':
         eff = call[2] or spec.inherited_encoding(scope, depth)
@@ -1267,6 +1270,138 @@ def replay_threads(payload):
             out.append(('interleaved-roundtrip-differs:%s' % what,
                         'thread %d' % t))
     return out
+
+
+# ----------------------------------------------- live objects in one thread
+# Two writers (then two readers) alive at the same time in ONE thread, their
+# calls interleaved in every possible order (every merge of the two call
+# sequences; readers in the quick tier: merges with <= 4 switches): each
+# object must behave as
+# it does alone. Catches per-thread / per-process state the library shares
+# between live objects (thread-local scratch, module tables keyed by option
+# values) that separate threads would never collide on.
+
+def _merges(na, nb, max_switches=None):
+    """Every interleaving of na 'A' steps and nb 'B' steps as a string."""
+    out = []
+
+    def rec(pre, a, b, sw):
+        if a == 0 and b == 0:
+            out.append(pre)
+            return
+        for ch, ok in (('A', a), ('B', b)):
+            if not ok:
+                continue
+            s2 = sw + (1 if pre and pre[-1] != ch else 0)
+            if max_switches is not None and s2 > max_switches:
+                continue
+            rec(pre + ch, a - (ch == 'A'), b - (ch == 'B'), s2)
+    rec('', na, nb, 0)
+    return out
+
+
+def live_units():
+    n = len(THREAD_DOCS)
+    return [('live', a, b) for a in range(n) for b in range(a, n)]
+
+
+def _live_solo(doc):
+    from pydiffx import DiffXWriter, DiffXReader
+    from mc.observe import new_writer
+    root, calls, crlf = doc
+    w, s = new_writer(root)
+    for c in calls:
+        apply_call(w, c)
+    data = s.getvalue()
+    rdata = _crlf_headers(data) if crlf else data
+    import io
+    recs = [rec_core(r, with_line=False)
+            for r in DiffXReader(io.BytesIO(rdata))]
+    return data, rdata, recs
+
+
+_LIVE_SOLO = {}
+
+
+def check_live(ia, ib, order, phase):
+    """phase 'write': the two writers' calls merged in `order`; phase
+    'read': the two readers' next() calls merged in `order`."""
+    import io
+    from pydiffx import DiffXReader
+    from mc.observe import new_writer
+    docs = [THREAD_DOCS[ia], THREAD_DOCS[ib]]
+    for i in (ia, ib):
+        if i not in _LIVE_SOLO:
+            _LIVE_SOLO[i] = _live_solo(THREAD_DOCS[i])
+    solo = [_LIVE_SOLO[ia], _LIVE_SOLO[ib]]
+    v = []
+    try:
+        if phase == 'write':
+            ws = [new_writer(d[0]) for d in docs]
+            pos = [0, 0]
+            for ch in order:
+                t = 0 if ch == 'A' else 1
+                apply_call(ws[t][0], docs[t][1][pos[t]])
+                pos[t] += 1
+            for t in range(2):
+                if ws[t][1].getvalue() != solo[t][0]:
+                    v.append(('live-writers-interfere',
+                              'writer %d (main encoding %s) wrote different '
+                              'bytes than alone when its calls were '
+                              'interleaved with another live writer\'s in '
+                              'the order %s' % (t, docs[t][0], order)))
+        else:
+            gens = [iter(DiffXReader(io.BytesIO(solo[t][1])))
+                    for t in range(2)]
+            got = [[], []]
+            for ch in order:
+                t = 0 if ch == 'A' else 1
+                try:
+                    got[t].append(rec_core(next(gens[t]), with_line=False))
+                except StopIteration:
+                    got[t].append('<end>')
+            for t in range(2):
+                if freeze(got[t]) != freeze(solo[t][2] + ['<end>']):
+                    v.append(('live-readers-interfere',
+                              'reader %d yielded different records than '
+                              'alone when interleaved with another live '
+                              'reader in the order %s' % (t, order)))
+    except Exception as e:
+        v.append(('live-objects-raised:%s:%s' % (type(e).__name__,
+                                                 site_of(e)),
+                  '%s phase, order %s: %r' % (phase, order, e)))
+    return v
+
+
+def run_live_unit(unit, tier, acc_cls):
+    acc = acc_cls()
+    _, ia, ib = unit
+    na, nb = len(THREAD_DOCS[ia][1]), len(THREAD_DOCS[ib][1])
+    total = 0
+    for phase, (xa, xb) in (('write', (na, nb)),
+                            ('read', (na + 2, nb + 2))):
+        # readers: one record per call plus the main header plus the end
+        orders = _merges(xa, xb, None if phase == 'write' or
+                         tier != 'quick' else 4)
+        for order in orders:
+            viols = check_live(ia, ib, order, phase)
+            total += 1
+            acc.evals += 1
+            acc.transitions += len(order)
+            acc.validated += 1
+            acc.nontrivial += 1
+            for key, msg in viols:
+                acc.violation(key, msg, {'kind': 'live', 'docs': [ia, ib],
+                                         'order': order, 'phase': phase})
+            acc.outcome('ok' if not viols else 'violation')
+    acc.states = total
+    acc.sample({'live_documents': [ia, ib], 'interleavings': total}, 1)
+    return acc
+
+
+def replay_live(payload):
+    ia, ib = payload['docs']
+    return check_live(ia, ib, payload['order'], payload['phase'])
 
 
 # ------------------------------------------------------------ small texts
